@@ -164,7 +164,7 @@ def run_case(case, ctx):
                     out.append(c)
             cmds = out
         rr = lab.run_driver(b["exe"], cmds, work / f"b_{be}")
-        fdz = [l for l in rr.ubsan if "division by zero" in l]
+        fdz = list(rr.fdz)
         if fdz:
             obs["float_divide_by_zero_reports"] += len(fdz)
         if rr.crashed() and not rr.by_ev("renorm"):
